@@ -122,6 +122,27 @@ def h_distrib(ctx, cfg):
   _nozero(ctx, P * Q + P * R, "distrib")
 
 
+def h_pow_negative(ctx, cfg):
+  """Negative exponents: a monomial has an inverse (a Laurent monomial); for a polynomial with several terms the
+  n-fold product does not exist as a Poly, so the operator must refuse - whatever it *returns* has to satisfy
+  R * P**|n| == 1, which is what "p**n" means."""
+  P, pc = _poly(ctx, "a", cfg["sp"])
+  n = cfg["n"]
+  for c in pc.values(): ctx.assume(c != 0)
+  try:
+    R = P ** n
+  except (NotImplementedError, ValueError, TypeError, ZeroDivisionError) as e:
+    ctx.prove(len(pc) >= 2, "negative-power-of-a-monomial-is-defined", "raised %s" % type(e).__name__)
+    return
+  prod = _terms(R)
+  for _ in range(-n): prod = _rmul(prod, pc)
+  ctx.prove(_same_dict(ctx, prod, {0: 1}), "negative-power-times-|n|-fold-product-is-one", "n=%d" % n)
+
+
+def _same_dict(ctx, a, b):
+  return And(*[ctx.eq(a.get(k, 0), b.get(k, 0)) for k in set(a) | set(b)])
+
+
 def h_pow(ctx, cfg):
   P, pc = _poly(ctx, "a", cfg["sp"])
   n = cfg["n"]
@@ -295,6 +316,9 @@ def tasks(tier, seed):
       if len(sp) == 3 and n > 3: continue
       T.append(("h_pow", {"sp": list(sp), "n": n}))
   if big: T.append(("h_pow", {"sp": [0, 1, 2, 3], "n": 2}))
+  for sp in ((0,), (2,), (-1,), (0, 1), (1, 3), (-1, 0, 2)):
+    for n in (-1, -2, -3):
+      T.append(("h_pow_negative", {"sp": list(sp), "n": n}))
   evs = [((0, 1, 2), (0, 1)), ((0, 3), (1, 2)), ((-1, 0, 1), (0, 1)), ((-2, 1), (-1,)), ((0, 1, 3), (0, 2)),
          ((2,), (0, 1)), ((1, 2), (0,))]
   if big: evs += [((0, 1, 2, 3), (0, 1)), ((-2, 0, 3), (-1, 1)), ((0, 2, 3), (0, 1, 2))]
